@@ -5,8 +5,17 @@
   the same definitions whether or not it is compiled in, and serde only adds `ser`/`de`.  What
   decides C17 is therefore this family's correspondence check run against four builds of the real
   library ({default}, {package-type}, {}, {default, serde}) — each transcript must equal the
-  model's, hence each other's.  The theorems below only record what the model says; they are not
-  the deciding argument (MANIFEST level: translation_validation).
+  model's, hence each other's.  The first three theorems only record what the model says; they are
+  not the deciding argument (MANIFEST level: translation_validation).
+
+  What IS checked in the kernel on every run is a syntactic sufficient condition, on the source as it is
+  now: the translator lists every conditional-compilation site of the non-test source
+  (`Generated.cfgSites`: `#[cfg]`, `#![cfg]`, `#[cfg_attr]`, `cfg!`), and `features_only_add_items` says
+  that each of them stands at the top level of a file and only ADDS an item (a `use`, a module, an
+  `impl` block, a derive) — no function, statement or expression is conditional — and that the one
+  pair of alternative definitions (`cfg` / `cfg(not ..)`) is the type alias `SmallString`, which is
+  what `small_string_is_string` is about.  A change that puts a feature-gated path inside the code
+  (seeded change C17-r22) breaks this theorem whether or not a stream reaches the input it needs.
 -/
 import PurlModel.Purl
 namespace Purl.C17
@@ -18,5 +27,27 @@ theorem small_string_is_string : smallShape = stringShape := rfl
 /-- so every observable of the SmallString instantiation is that of the String instantiation -/
 theorem parse_same (U : UnicodeOps) (s : Str) : parseM U s = parseS U s := rfl
 theorem build_same (U : UnicodeOps) (b : GPurl Str) : buildM U b = buildS U b := rfl
+
+/-- a conditional-compilation site that can only add an item -/
+def additive (s : CfgSite) : Bool :=
+  s.depth == 0 &&
+  (match s.kind with
+   | .use | .mod | .type | .impl | .derive => true
+   | _ => false) &&
+  (!s.negated || s.kind == .type)
+
+/-- every feature gate of the current source adds items at the top level of a file; nothing inside a function,
+no function, no statement, no expression is conditional -/
+theorem features_only_add_items : cfgSites.all additive = true := by decide
+
+/-- the only alternative definitions (`cfg(not(..))`) are type aliases (on the pinned tree: `SmallString` in lib.rs) -/
+theorem alternatives_are_type_aliases :
+    (cfgSites.filter (·.negated)).all (fun s => s.kind == .type) = true := by decide
+
+/-- the predicate is not trivially true: a gated function, a gate inside a body, a second pair of alternative
+functions (the shape of the seeded change C17-r22) are all refused -/
+example : additive { file := "parse.rs", cond := "feature=\"smartstring\"", kind := .fn, depth := 0, negated := false } = false ∧
+    additive { file := "parse.rs", cond := "feature=\"smartstring\"", kind := .expr, depth := 2, negated := false } = false ∧
+    additive { file := "parse.rs", cond := "not(feature=\"smartstring\")", kind := .impl, depth := 0, negated := true } = false := by decide
 
 end Purl.C17
